@@ -139,6 +139,30 @@ type c07Outcome struct {
 	NotifyCon int
 }
 
+// c07Group is a channel-based WaitGroup for use inside synctest bubbles (go1.25's
+// sync.WaitGroup aborts when its address is recycled across bubbles). Go must be
+// called from one goroutine only.
+type c07Group struct {
+	n  int
+	ch chan struct{}
+}
+
+func newC07Group() *c07Group { return &c07Group{ch: make(chan struct{}, 4096)} }
+
+func (g *c07Group) Go(f func()) {
+	g.n++
+	go func() {
+		defer func() { g.ch <- struct{}{} }()
+		f()
+	}()
+}
+
+func (g *c07Group) Wait() {
+	for ; g.n > 0; g.n-- {
+		<-g.ch
+	}
+}
+
 func c07Hash(parts ...string) int64 {
 	h := fnv.New64a()
 	for _, p := range parts {
@@ -286,7 +310,7 @@ type c07Env struct {
 	qrs     []*serf.QueryResponse
 	logs    []*c07QueryLog
 	stop    chan struct{}
-	wg      sync.WaitGroup
+	wg      *c07Group
 	destUDP net.UDPAddr
 }
 
@@ -324,9 +348,7 @@ func (e *c07Env) issue(i int, q c07QuerySpec) error {
 		e.sent = append(e.sent, c07Sent{At: before, LTime: mq.LTime, ID: mq.ID, From: e.nd.Name, Flags: wire.FlagAck, Path: "self"})
 	}
 	e.mu.Unlock()
-	e.wg.Add(1)
-	go func() {
-		defer e.wg.Done()
+	e.wg.Go(func() {
 		ackCh, respCh := qr.AckCh(), qr.ResponseCh()
 		for ackCh != nil || respCh != nil {
 			select {
@@ -352,7 +374,7 @@ func (e *c07Env) issue(i int, q c07QuerySpec) error {
 				return
 			}
 		}
-	}()
+	})
 	return nil
 }
 
@@ -491,7 +513,7 @@ func c07Bubble(t *testing.T, scs []*c07Scenario, seed int64, rng *rand.Rand, out
 // c07Episode runs one scenario; must be called inside the bubble.
 func c07Episode(nd *cluster.Node, pups []*cluster.Puppet, sc *c07Scenario, rng *rand.Rand, out *c07Outcome) {
 	{
-		e := &c07Env{nd: nd, pups: pups, stop: make(chan struct{}), qrs: make([]*serf.QueryResponse, len(sc.Queries)), logs: make([]*c07QueryLog, len(sc.Queries)),
+		e := &c07Env{nd: nd, pups: pups, stop: make(chan struct{}), wg: newC07Group(), qrs: make([]*serf.QueryResponse, len(sc.Queries)), logs: make([]*c07QueryLog, len(sc.Queries)),
 			destUDP: net.UDPAddr{IP: nd.Tr.IP(), Port: nd.Tr.Port()}}
 		nd.DrainBroadcasts()
 		e.t0 = time.Now()
@@ -573,20 +595,18 @@ func c07Episode(nd *cluster.Node, pups []*cluster.Puppet, sc *c07Scenario, rng *
 				m, buf := e.build(rp, rng)
 				items = append(items, item{m, buf})
 			}
-			var dwg sync.WaitGroup
+			dwg := newC07Group()
 			if sc.Burst {
 				gate := make(chan struct{})
 				for g := 0; g < sc.G; g++ {
 					order := rng.Perm(len(items))
-					dwg.Add(1)
-					go func() {
-						defer dwg.Done()
+					dwg.Go(func() {
 						<-gate
 						for _, k := range order {
 							e.logSent(items[k].m, c07PathNotify)
 							nd.NotifyMsg(items[k].buf)
 						}
-					}()
+					})
 				}
 				synctest.Wait()
 				close(gate)
@@ -597,9 +617,7 @@ func c07Episode(nd *cluster.Node, pups []*cluster.Puppet, sc *c07Scenario, rng *
 				}
 				arrived := make([]atomic.Int32, len(items))
 				for g := 0; g < sc.G; g++ {
-					dwg.Add(1)
-					go func() {
-						defer dwg.Done()
+					dwg.Go(func() {
 						for k := range items {
 							<-gates[k]
 							// bounded spin so that the calls really start together
@@ -608,7 +626,7 @@ func c07Episode(nd *cluster.Node, pups []*cluster.Puppet, sc *c07Scenario, rng *
 							}
 							nd.NotifyMsg(items[k].buf)
 						}
-					}()
+					})
 				}
 				for k := range items {
 					synctest.Wait()
